@@ -100,15 +100,44 @@ func analyseLockedWrites(p *pkgInfo) []lockedWrite {
 					})
 				}
 				walk(fd.Body, false)
-				// err := x.writeErr ; if err != nil { return }
+				// err := x.writeErr ; if err != nil { return }   — the read may also go through a helper method whose
+				// body reads x.writeErr (`err := x.stickyWriteErr()`), and may sit in the if's init clause
+				readsWriteErr := func(e ast.Expr) bool {
+					if hasSuffixPath(e, "writeErr") {
+						return true
+					}
+					ce, ok := e.(*ast.CallExpr)
+					if !ok {
+						return false
+					}
+					se, ok := ce.Fun.(*ast.SelectorExpr)
+					if !ok {
+						return false
+					}
+					callee := p.funcDecl("Conn", se.Sel.Name)
+					if callee == nil {
+						return false
+					}
+					found := false
+					ast.Inspect(callee.Body, func(k ast.Node) bool {
+						if s, ok := k.(*ast.SelectorExpr); ok && s.Sel.Name == "writeErr" {
+							found = true
+						}
+						return true
+					})
+					return found
+				}
 				var assignPos token.Pos
 				ast.Inspect(fd.Body, func(m ast.Node) bool {
 					switch x := m.(type) {
 					case *ast.AssignStmt:
-						if len(x.Rhs) == 1 && hasSuffixPath(x.Rhs[0], "writeErr") && x.Pos() > lw.acquirePos && x.Pos() < lw.writePos {
+						if len(x.Rhs) == 1 && readsWriteErr(x.Rhs[0]) && x.Pos() > lw.acquirePos && x.Pos() < lw.writePos {
 							assignPos = x.Pos()
 						}
 					case *ast.IfStmt:
+						if as, ok := x.Init.(*ast.AssignStmt); ok && len(as.Rhs) == 1 && readsWriteErr(as.Rhs[0]) && x.Pos() > lw.acquirePos && x.Pos() < lw.writePos {
+							assignPos = x.Pos() - 1
+						}
 						if assignPos != token.NoPos && x.Pos() > assignPos && x.Pos() < lw.writePos && lw.errCheckPos == token.NoPos {
 							if be, ok := x.Cond.(*ast.BinaryExpr); ok && be.Op == token.NEQ && selPath(be.X) == "err" && selPath(be.Y) == "nil" {
 								for _, st := range x.Body.List {
